@@ -67,6 +67,35 @@ func (c *Ctx) evalLeafBatch(cases []*leafCase) {
 	for i, lc := range cases {
 		lc.model = ans[i]
 	}
+	// Reuse after a failed call: the comparison as the right operand of `(gq eq 1 and zq co 1) or …` on one evaluator that
+	// first processes an object on which the guard reaches the unsupported comparison (the call fails), then the object
+	// of the case with the guard off. The comparisons are stated for any position in a rule and any history of the
+	// evaluator, so the second call must give the verdict the comparison has alone, with no error.
+	for _, lc := range cases {
+		if !c.R.Chance(1, 6) || modelField(lc.model, "e") != "-" || lc.goObs.E != "-" || lc.leaf.T == NLogic || lc.leaf.T == NParen {
+			continue
+		}
+		if lc.obj.Get("gq") != nil || lc.obj.Get("zq") != nil {
+			continue
+		}
+		guard := &Node{T: NParen, Q: &Node{T: NLogic, L: &Node{T: NCmp, Path: []string{"gq"}, Op: 13, Lit: Lit{Kind: "long", Text: "1"}},
+			R: &Node{T: NCmp, Path: []string{"zq"}, Op: 19, Lit: Lit{Kind: "long", Text: "1"}}}}
+		rule := &Node{T: NLogic, Or: true, L: guard, R: lc.leaf}
+		text := c.style(true).Render(rule)
+		on := map[string]interface{}{"gq": 1}
+		obj := lc.obj.GoMap()
+		if obj == nil {
+			continue
+		}
+		obj["gq"] = 2
+		got := evalOn(text, obj, []map[string]interface{}{on})
+		c.count("reuse_after_failed_call")
+		if got.V != lc.goObs.V || got.E != "-" {
+			c.violate(Violation{What: "after a call that failed on an unsupported comparison elsewhere in the rule, the same evaluator gives this comparison another outcome than it has alone",
+				Rule: text, RuleHex: hx(text), Object: lc.obj.Pretty() + " plus gq=2 (previous call on the same evaluator: {gq: 1})", ObjProto: lc.obj.String(),
+				Demand: fmt.Sprintf("verdict %v and no error, as for %q alone", lc.goObs.V, lc.text), Go: got.Line() + " " + got.ErrText, Model: lc.model})
+		}
+	}
 }
 
 func modelField(line, key string) string {
